@@ -45,6 +45,7 @@ EXTENDS Naturals, Sequences, FiniteSets, TLC, FramingCore
 
 CONSTANTS Layouts,      \* sequence of [id, codec, rep, atoms, bad, at] : the frames the codec pairs can produce
           MaxFrames,    \* longest message sequence
+          GivenSeqs,    \* {} or the explicit set of message sequences to explore
           PieceBounds,  \* set of upper bounds for the size of one read (a behaviour picks one)
           RecordHist    \* TRUE: keep the history of pieces (behaviour generation); FALSE: model checking
 
@@ -82,8 +83,9 @@ Reps(c) == {i \in Of(c) : Layouts[i].rep}
 
 \* message sequences of one codec pair: every single frame; every sequence of 2..MaxFrames frames of
 \* the representative subset; at most one corrupted frame
-Sequences == {<<i>> : i \in 1..Len(Layouts)}
-             \cup UNION { { s \in [1..n -> Reps(c)] : NumBad(s) <= 1 } : n \in 2..MaxFrames, c \in Codecs }
+Sequences == IF GivenSeqs # {} THEN GivenSeqs
+             ELSE {<<i>> : i \in 1..Len(Layouts)}
+                  \cup UNION { { s \in [1..n -> Reps(c)] : NumBad(s) <= 1 } : n \in 2..MaxFrames, c \in Codecs }
 
 EndAt(k) == IF k = 0 THEN 0 ELSE IF k > Len(ends) THEN ends[Len(ends)] ELSE ends[k]
 TotalLen == ends[Len(ends)]
